@@ -44,12 +44,13 @@ theorem fact_fail_safe :
   decide
 
 /-- Source pin: the shape of the two collectors (what they skip, how the container id is found, that the only
-    removal is guarded by shouldCleanup, callback before an unconditional remove). -/
+    removal is guarded by shouldCleanup, callback before an unconditional remove, and that no entry can end the
+    round for the entries and directories after it: no return / break in the loops, no error result of shouldCleanup). -/
 theorem fact_collectors :
     ipSweepSkipsDirsAndNonIPNames = true ∧ ipSweepSkipsUnreadableOrEmpty = true ∧ ipSweepCidIsFirstLineTrimmed = true ∧
     ipSweepRemovesOnlyIfShouldCleanup = true ∧ ipSweepSkipsMissingDir = true ∧ gcSweepSkipsDirs = true ∧
     gcSweepRemovesOnlyIfShouldCleanup = true ∧ stateFileRemovedAfterCallbackWhateverItsResult = true ∧
-    ipFileRemovalIsOsRemove = true := by
+    ipFileRemovalIsOsRemove = true ∧ shouldCleanupReturnsOnlyBool = true ∧ sweepsNeverEndTheRoundEarly = true := by
   decide
 
 /-! ## the decision -/
@@ -91,7 +92,10 @@ theorem outcomes_classified (o : InspectOutcome) :
     directories: ONE pass of cleanupIP over a directory (removals succeeding) removes every IP reservation file of a
     dead container and NO other entry — sub-directories, names that are not IP addresses, empty files, files of
     running / unknown containers and of containers the runtime could not be asked about all stay, in order; and a
-    second pass under the same answers changes nothing (bound: 1 round). -/
+    second pass under the same answers changes nothing (bound: 1 round).
+    NOTE on the quantifier: `rt` is ANY runtime — it may answer `RuntimeError` for any number of OTHER entries of `d`,
+    wherever they sort relative to the dead container's file; the statement has no hypothesis about them.  That the
+    bound survives a partial, persistent runtime failure is spelled out in `dead_removed_despite_erroring_entries`. -/
 theorem one_round_removes_all_dead (rt : Runtime) (d : Dir) :
     (∀ e, e ∈ sweepIPDir rt d ↔ e ∈ d ∧ ¬ IsDeadIPFile rt e) ∧
     (sweepIPDir rt d).Sublist d ∧
@@ -193,6 +197,33 @@ theorem rounds_bound (rt : Runtime) (ips gcs : List (Option Dir)) :
       simp only [Function.comp, Option.map_some, Option.some.injEq]
       rw [this]
 
+/-- "eventually all of it … within a bounded number of GC rounds", under PARTIAL and PERSISTENT runtime failure: a
+    dead container's file is collected in the very first round no matter which other entries' inspect calls fail
+    (`RuntimeError`) — entries sorting before it, between dead ones or after it in the same directory, and whole
+    earlier directories of the list full of failing entries (every directory of the list is swept, each on its own:
+    a failing entry is skipped, it never ends the round).  No hypothesis restricts the other entries or directories. -/
+theorem dead_removed_despite_erroring_entries (rt : Runtime) :
+    (∀ (d : Dir) (e : Entry), IsDeadIPFile rt e → e ∉ sweepIPDir rt d) ∧
+    (∀ (d : Dir) (e : Entry), e ∈ d → IsDeadStateFile rt e → e ∉ (sweepGCDir rt d).1 ∧ e.name ∈ (sweepGCDir rt d).2) ∧
+    (∀ (ds : List (Option Dir)), sweepIPDirs rt ds = ds.map (Option.map (sweepIPDir rt)) ∧
+      (sweepGCDirs rt ds).1 = ds.map (Option.map (fun d => (sweepGCDir rt d).1))) ∧
+    (∀ (before after : List (Option Dir)) (d : Dir) (e : Entry), IsDeadIPFile rt e →
+      ∃ d', (sweepIPDirs rt (before ++ some d :: after))[before.length]? = some (some d') ∧ e ∉ d') ∧
+    (∀ (before after : List (Option Dir)) (d : Dir) (e : Entry), IsDeadStateFile rt e →
+      ∃ d', ((sweepGCDirs rt (before ++ some d :: after)).1)[before.length]? = some (some d') ∧ e ∉ d') := by
+  refine ⟨?_, ?_, fun ds => ⟨rfl, rfl⟩, ?_, ?_⟩
+  · intro d e he hm
+    exact (((one_round_removes_all_dead rt d).1 e).mp hm).2 he
+  · intro d e hd he
+    refine ⟨fun hm => (((one_round_removes_all_dead_state_files rt d).1 e).mp hm).2 he, ?_⟩
+    exact ((one_round_removes_all_dead_state_files rt d).2.2.1 e.name).mpr ⟨e, hd, rfl, he⟩
+  · intro before after d e he
+    refine ⟨sweepIPDir rt d, ?_, fun hm => (((one_round_removes_all_dead rt d).1 e).mp hm).2 he⟩
+    simp [sweepIPDirs]
+  · intro before after d e he
+    refine ⟨(sweepGCDir rt d).1, ?_, fun hm => (((one_round_removes_all_dead_state_files rt d).1 e).mp hm).2 he⟩
+    simp [sweepGCDirs]
+
 /-- "or a port mapping": when the callbacks succeed, the port mapping of every dead container whose state file was
     collected is gone after the round. -/
 theorem port_mappings_of_dead_cleaned (rt : Runtime) (d : Dir) (mappings : List String) (cid : String)
@@ -211,6 +242,18 @@ example :
       ⟨"10.0.0.4", .file " c-exited \r\neth0", false⟩, ⟨"10.0.0.5", .file "c-unknown", false⟩, ⟨"10.0.0.6", .file "", false⟩,
       ⟨"last_reserved_ip.0", .file "c-gone", false⟩, ⟨"galaxy-flannel", .dir, false⟩, ⟨"fe80::1", .file "c-gone", true⟩]
     (sweepIPDir rt d).map (·.name) = ["10.0.0.3", "10.0.0.5", "10.0.0.6", "last_reserved_ip.0", "galaxy-flannel"] := by
+  decide
+
+/-- failing entries before, between and after the dead ones, and a first directory holding nothing but failing entries:
+    every dead container's file is gone after ONE round, every failing entry's file is kept -/
+example :
+    let rt : Runtime := fun cid =>
+      if cid = "a0" ∨ cid = "a3" ∨ cid = "a6" then .docker .error
+      else if cid = "a1" then .docker .notFound else if cid = "a4" then .docker (.state (some "exited"))
+      else if cid = "a7" then .docker (.state (some "dead")) else .docker (.state (some "running"))
+    let f : String → Entry := fun cid => ⟨cid, .file "{}", false⟩
+    (sweepGCDirs rt [some [f "a0", f "a3"], none, some [f "a0", f "a1", f "a2", f "a3", f "a4", f "a6", f "a7"], some [f "a7"]]) =
+      ([some [f "a0", f "a3"], none, some [f "a0", f "a2", f "a3", f "a6"], some []], ["a1", "a4", "a7", "a7"]) := by
   decide
 
 /-- the hypotheses of `never_running`, `never_on_runtime_error`, `cleanup_only_dead` are inhabited -/
